@@ -12,6 +12,8 @@
 // version succeeds; partitions cover the triangles; converting back returns equivalent geometry.
 #include "gen.hpp"
 #include "harness.hpp"
+#include "observe.hpp"
+#include "diff.hpp"
 
 using namespace nifly;
 using namespace vf;
@@ -30,7 +32,34 @@ struct ShapeFacts {
 	std::vector<std::map<std::string, double>> weights; // per vertex, normalised
 	bool skinned = false;
 	bool anyWeight = false;
+	// "the shader": its values apart from the two flag words and the parallax type (which the conversion
+	// documents to change), its textures, and the alpha property
+	std::string shaderValues, alphaValues;
+	std::vector<std::string> textures;
+	bool wasParallax = false;
 };
+
+// Shader block rendered without the flag words (the conversion clears documented bits in them) and with
+// the parallax shader type mapped to the default one; references masked, strings by text
+std::string shaderValuesOf(NifFile& nif, NiShader* sh, bool& wasParallax) {
+	auto c = sh->Clone();
+	if (auto l = dynamic_cast<BSLightingShaderProperty*>(c.get())) {
+		wasParallax = l->GetShaderType() == BSLSP_PARALLAX;
+		if (wasParallax)
+			l->SetShaderType(BSLSP_DEFAULT);
+		l->shaderFlags1 = 0;
+		l->shaderFlags2 = 0;
+	}
+	else if (auto e = dynamic_cast<BSEffectShaderProperty*>(c.get())) {
+		e->shaderFlags1 = 0;
+		e->shaderFlags2 = 0;
+	}
+	PutObs o = observedPutLive(*c, nif.GetHeader());
+	CanonOpts co;
+	co.maskRefs = true;
+	co.stringsByText = true;
+	return canonPayload(o, co);
+}
 
 std::vector<ShapeFacts> factsOf(NifFile& nif) {
 	std::vector<ShapeFacts> out;
@@ -46,8 +75,23 @@ std::vector<ShapeFacts> factsOf(NifFile& nif) {
 			f.tris.insert(triKey(tr));
 		f.hasUvs = nif.GetUvsForShape(s, f.uvs);
 		f.hasColors = nif.GetColorsForShape(s, f.colors);
-		if (auto sh = nif.GetShader(s))
+		if (auto sh = nif.GetShader(s)) {
 			f.shaderType = sh->GetBlockName();
+			f.shaderValues = shaderValuesOf(nif, sh, f.wasParallax);
+			for (uint32_t slot = 0; slot < 10; slot++) {
+				std::string tex;
+				if (nif.GetTextureSlot(s, tex, slot) == 0)
+					break;
+				f.textures.push_back(tex);
+			}
+		}
+		if (auto ap = nif.GetAlphaProperty(s)) {
+			PutObs o = observedPutClone(*ap, nif.GetHeader());
+			CanonOpts co;
+			co.maskRefs = true;
+			co.stringsByText = true;
+			f.alphaValues = canonPayload(o, co);
+		}
 		f.skinned = s->IsSkinned();
 		nif.GetShapeBoneList(s, f.bones);
 		f.weights.resize(f.verts.size());
@@ -177,6 +221,15 @@ std::string compareFacts(const std::vector<ShapeFacts>& a, const std::vector<Sha
 		clause = "shader";
 		if (x.shaderType != y.shaderType)
 			return S + "shader block type changed " + x.shaderType + " -> " + y.shaderType;
+		if (x.shaderValues != y.shaderValues)
+			return S + "values of the shader block changed (flag words and parallax type excluded): " + firstDiff(x.shaderValues, y.shaderValues);
+		if (x.alphaValues != y.alphaValues)
+			return S + "alpha property changed or lost";
+		if (x.textures.size() != y.textures.size())
+			return S + "number of texture slots changed " + std::to_string(x.textures.size()) + " -> " + std::to_string(y.textures.size());
+		for (size_t k = 0; k < x.textures.size(); k++)
+			if (x.textures[k] != y.textures[k] && !(k == 3 && x.wasParallax && y.textures[k].empty()))
+				return S + "texture slot " + std::to_string(k) + " changed '" + x.textures[k] + "' -> '" + y.textures[k] + "'";
 		clause = "parent";
 		if (x.parent != y.parent)
 			return S + "parent node changed";
@@ -219,21 +272,28 @@ std::string partitionCoverage(NifFile& nif) {
 		std::multiset<uint64_t> want, got;
 		for (auto& t : tris)
 			want.insert(triKey(t));
+		std::multiset<uint64_t> gotStored;
 		for (auto& p : sp->partitions) {
+			// the stored list (what is written to the file) ...
+			for (auto& t : p.triangles) {
+				if (sp->bMappedIndices) {
+					if (t.p1 >= p.vertexMap.size() || t.p2 >= p.vertexMap.size() || t.p3 >= p.vertexMap.size())
+						return "mapped partition triangle indexes past the vertex map (" + s->name.get() + ")";
+					gotStored.insert(triKey(Triangle(p.vertexMap[t.p1], p.vertexMap[t.p2], p.vertexMap[t.p3])));
+				}
+				else
+					gotStored.insert(triKey(t));
+			}
+			// ... and the cached true triangles, where present
 			if (!p.trueTriangles.empty())
 				for (auto& t : p.trueTriangles)
 					got.insert(triKey(t));
-			else
-				for (auto& t : p.triangles) {
-					if (sp->bMappedIndices) {
-						if (t.p1 >= p.vertexMap.size() || t.p2 >= p.vertexMap.size() || t.p3 >= p.vertexMap.size())
-							return "mapped partition triangle indexes past the vertex map (" + s->name.get() + ")";
-						got.insert(triKey(Triangle(p.vertexMap[t.p1], p.vertexMap[t.p2], p.vertexMap[t.p3])));
-					}
-					else
-						got.insert(triKey(t));
-				}
 		}
+		bool anyStored = !gotStored.empty(), anyTrue = !got.empty();
+		if (anyStored && gotStored != want)
+			return "stored partition triangles of shape " + s->name.get() + " (mapped=" + std::to_string(sp->bMappedIndices) + ") do not cover its triangles exactly once (" + std::to_string(gotStored.size()) + " vs " + std::to_string(want.size()) + ")";
+		if (!anyTrue)
+			got = gotStored;
 		if (want != got)
 			return "partitions of shape " + s->name.get() + " do not cover its triangles exactly once (" + std::to_string(got.size()) + " vs " + std::to_string(want.size()) + ")";
 	}
@@ -291,6 +351,37 @@ Verdict prop(Tape& t, Run& run) {
 			if (sh && t.chance(40)) {
 				sh->shaderFlags1 |= (1 << 12); // model space normals
 				desc += "+modelspace ";
+			}
+			if (sh && t.chance(96)) {
+				// shader variety: type (incl. parallax with its flag and height map), numeric values, textures
+				static const uint32_t kinds[] = {BSLSP_DEFAULT, BSLSP_ENVMAP, BSLSP_GLOWMAP, BSLSP_PARALLAX, BSLSP_SKINTINT, BSLSP_HAIRTINT, BSLSP_EYE, BSLSP_MULTILAYERPARALLAX};
+				uint32_t kind = kinds[t.u8() % 8];
+				sh->SetShaderType(kind);
+				if (kind == BSLSP_PARALLAX)
+					sh->shaderFlags1 |= (1 << 11);
+				sh->glossiness = 10.0f + t.u8();
+				sh->specularStrength = t.u8() / 32.0f;
+				sh->emissiveMultiple = t.u8() / 16.0f;
+				sh->alpha = 1.0f - t.u8() / 512.0f;
+				sh->environmentMapScale = t.u8() / 64.0f;
+				sh->skinTintColor = Vector3(t.u8() / 255.0f, 0.5f, 0.25f);
+				sh->hairTintColor = Vector3(0.1f, t.u8() / 255.0f, 0.3f);
+				sh->maxPasses = 1.0f + t.u8() % 8;
+				sh->scale = t.u8() / 128.0f;
+				uint32_t nt = t.u8() % 9;
+				for (uint32_t slot = 0; slot < nt; slot++) {
+					std::string tex = "textures\\gen\\s" + std::to_string(i) + "_" + std::to_string(slot) + ".dds";
+					nif.SetTextureSlot(g.shape, tex, slot);
+				}
+				if (t.chance(96)) {
+					auto ap = std::make_unique<NiAlphaProperty>();
+					ap->flags = 4844 + t.u8() % 3;
+					ap->threshold = t.u8();
+					nif.AssignAlphaProperty(g.shape, std::move(ap));
+					desc += "+alpha ";
+				}
+				desc += "+shader-kind" + std::to_string(kind) + " ";
+				run.cls("shader-kind:" + std::to_string(kind));
 			}
 			if (t.chance(40)) {
 				std::vector<Color4> white(g.shape->GetNumVertices(), Color4(1, 1, 1, 1));
